@@ -860,3 +860,108 @@ func c04Fresh(r *core.Run, prog *core.Program) {
 	r.Count("step_tables", len(version))
 	r.Count("step_table_reads", nReads)
 }
+
+// ---- C01/MEMO -----------------------------------------------------------------------------------
+// The machine description (Arch, Conproc, Rom, Ram, Machine …) is a plain record whose fields the
+// front-ends assign directly. A method that keeps a value computed from those fields in a receiver field
+// and returns the kept value on later calls (a memo) while no other function ever stores that field (no
+// invalidation) hands out a stale width once a front-end changes a parameter: the assembler, the
+// simulator and the HDL generators then disagree on the instruction word (C01, C03, C16).
+func c01Memo(r *core.Run, prog *core.Program) {
+	pk := prog.Pkg("pkg/procbuilder")
+	if pk == nil {
+		return
+	}
+	info := pk.TypesInfo
+	// stores per field, per function, over the whole module
+	storedIn := map[*types.Var]map[string]bool{}
+	for _, p := range prog.Pkgs {
+		pinfo := p.TypesInfo
+		p := p
+		core.FuncDecls(p, func(_ *ast.File, fd *ast.FuncDecl) {
+			if fd.Body == nil {
+				return
+			}
+			key := core.FuncKey(p, fd)
+			ast.Inspect(fd.Body, func(m ast.Node) bool {
+				switch x := m.(type) {
+				case *ast.AssignStmt:
+					for _, l := range x.Lhs {
+						if f := core.FieldOf(pinfo, l); f != nil {
+							if storedIn[f] == nil {
+								storedIn[f] = map[string]bool{}
+							}
+							storedIn[f][key] = true
+						}
+					}
+				case *ast.IncDecStmt:
+					if f := core.FieldOf(pinfo, x.X); f != nil {
+						if storedIn[f] == nil {
+							storedIn[f] = map[string]bool{}
+						}
+						storedIn[f][key] = true
+					}
+				}
+				return true
+			})
+		})
+	}
+	n := 0
+	core.FuncDecls(pk, func(_ *ast.File, fd *ast.FuncDecl) {
+		if fd.Body == nil || fd.Recv == nil || len(fd.Recv.List) == 0 || len(fd.Recv.List[0].Names) == 0 || fd.Type.Results == nil {
+			return
+		}
+		recv := info.ObjectOf(fd.Recv.List[0].Names[0])
+		rootIsRecv := func(e ast.Expr) bool {
+			se, ok := ast.Unparen(e).(*ast.SelectorExpr)
+			if !ok {
+				return false
+			}
+			id, ok := ast.Unparen(se.X).(*ast.Ident)
+			return ok && info.ObjectOf(id) == recv
+		}
+		stored := map[*types.Var]token.Pos{}
+		returned := map[*types.Var]bool{}
+		ast.Inspect(fd.Body, func(m ast.Node) bool {
+			switch x := m.(type) {
+			case *ast.AssignStmt:
+				for _, l := range x.Lhs {
+					if rootIsRecv(l) {
+						if f := core.FieldOf(info, l); f != nil {
+							stored[f] = x.Pos()
+						}
+					}
+				}
+			case *ast.ReturnStmt:
+				for _, res := range x.Results {
+					e := ast.Unparen(res)
+					if call, ok := e.(*ast.CallExpr); ok && len(call.Args) == 1 {
+						if tv, ok := info.Types[call.Fun]; ok && tv.IsType() {
+							e = ast.Unparen(call.Args[0])
+						}
+					}
+					if rootIsRecv(e) {
+						if f := core.FieldOf(info, e); f != nil {
+							returned[f] = true
+						}
+					}
+				}
+			}
+			return true
+		})
+		key := core.FuncKey(pk, fd)
+		for f, pos := range stored {
+			if !returned[f] {
+				continue
+			}
+			n++
+			inst := fmt.Sprintf("C01/MEMO:%s:%s", key, f.Name())
+			if len(storedIn[f]) <= 1 {
+				r.Violation("C01/MEMO", inst, prog.Pos(pos), fmt.Sprintf("%s keeps a computed value in the field %s and returns the kept value, and no other function ever stores that field (nothing invalidates it): the machine description's parameters are assigned directly by the front-ends, so after such an assignment the method keeps returning the value of the old parameters — the assembler pads to one instruction width while the generators reloaded from JSON use another", key, f.Name()))
+			} else {
+				r.OK("C01/MEMO", inst, prog.Pos(pos), "the kept field is also stored elsewhere (set or invalidated by other code)")
+			}
+		}
+	})
+	r.Count("memo_candidates", n)
+}
